@@ -66,7 +66,7 @@ Definition build_trace (defs : fdefs) (cond : string -> bool) : list string * st
    that may change it *)
 Definition pure_calls : list string :=
   ["bc.Arch"; "bc.apk.GetInstalled"; "bc.baseimg.InstalledPackages"; "bc.o.TempDir"; "bc.o.TarballFileName";
-   "bc.checkPaths"; "installablePackagesForArch"; "groupByOriginAndSize"].
+   "bc.checkPaths"; "installablePackagesForArch"; "groupByOriginAndSize"; "newLayerWriter"].
 Definition serialisers : list string := ["writeTar"; "splitLayers"].
 Definition in_list (n : string) (l : list string) : bool := existsb (String.eqb n) l.
 Definition mutating (n : string) : bool := negb (in_list n pure_calls) && negb (in_list n serialisers).
